@@ -187,6 +187,56 @@ func (g *c18Gen) doc(depth int) *jv {
 	return o
 }
 
+// tameDoc: a container with plain content (identifier keys, small integers, simple floats,
+// booleans, null, words) for discover-json, which looks for JSON inside arbitrary text by
+// heuristics and is only expected to find unambiguous documents.
+func (g *c18Gen) tameDoc(depth int) *jv {
+	var val func(d int) *jv
+	val = func(d int) *jv {
+		if d <= 0 || g.r.Chance(35) {
+			switch g.r.Intn(6) {
+			case 0:
+				return jNull()
+			case 1:
+				return jBool(g.r.Bool())
+			case 2:
+				return jStr([]string{"abc", "x y", "word", "Z9", ""}[g.r.Intn(5)])
+			case 3:
+				return jFlo(float64(g.r.Intn(2000)-1000) + 0.5)
+			default:
+				return jInt(int64(g.r.Intn(2000) - 1000))
+			}
+		}
+		n := 1 + g.r.Intn(3)
+		if g.r.Bool() {
+			a := &jv{kind: 'a'}
+			for i := 0; i < n; i++ {
+				a.arr = append(a.arr, val(d-1))
+			}
+			return a
+		}
+		o := &jv{kind: 'o'}
+		for i := 0; i < n; i++ {
+			k := c18Keys[(g.r.Intn(len(c18Keys))+i)%len(c18Keys)]
+			dup := false
+			for _, e := range o.keys {
+				dup = dup || e == k
+			}
+			if !dup {
+				o.keys = append(o.keys, k)
+				o.vals = append(o.vals, val(d-1))
+			}
+		}
+		return o
+	}
+	for {
+		d := val(depth)
+		if d.kind == 'a' || d.kind == 'o' {
+			return d
+		}
+	}
+}
+
 // container generates a document whose root is a container (ops need something to address).
 func (g *c18Gen) container(depth int) *jv {
 	for {
